@@ -104,9 +104,10 @@ def extract(profile='dev', repo=None, quiet=True):
                 raise ExtractError('cargo check with the fact extractor failed (the tree does '
                                    'not compile, or the driver was skipped):\n' + p.stdout[-4000:])
             open(os.path.join(out, 'DONE'), 'w').write(thash)
-            # keep the cache small: newest 12 fact sets
+            # bounded cache (≈9 MB per set): the mutants, seeds and benign variants of one base tree hash to the same keys on every
+            # run, so a second thorough run of a property re-uses their facts instead of re-running the driver
             ents = sorted(glob.glob(os.path.join(CACHE, 'facts', '*')), key=os.path.getmtime)
-            for e in ents[:-12]:
+            for e in ents[:-400]:
                 shutil.rmtree(e, ignore_errors=True)
         else:
             os.utime(out, None)
